@@ -41,7 +41,8 @@ Definition start (ts : list token) : pstate := St None ts.
 (* error classes = the constructors of parser/error.go *)
 Inductive perr :=
 | E_unexpected | E_missing_semi | E_missing_colon | E_undef_prefix | E_conversion | E_escape
-| E_dup_case | E_multi_default | E_final_fallthrough | E_empty_switch | E_paren_mismatch.
+| E_dup_case | E_multi_default | E_final_fallthrough | E_empty_switch | E_paren_mismatch
+| E_fname.          (* "Function name must be IDENT": a call parenthesis behind something that is no identifier *)
 
 (* POK | a *ParseError on token t, [rem] = number of tokens from t to the end of the stream
    (t included; 0 = the EOF after the last token) | a plain `error` without token |
